@@ -1011,13 +1011,11 @@ fn run_history(acc: &Acc, hist: &[Ev]) -> Outcome {
             // Outputs and collateral return: the reference is likewise the bookkeeping of the
             // calls (the `Output` builder calls included: an asset added twice accumulates), not
             // the `Output` values as they sit in the staged struct.
-            let staged_cmp = Content {
-                mint: effective_mint(&staged.content.mint),
-                scripts: m.content.scripts.clone(),
-                outputs: m.content.outputs.clone(),
-                collateral_return: m.content.collateral_return.clone(),
-                ..staged.content.clone()
-            };
+            // Every other field as well: what was staged is what the calls said, so a staging
+            // call that files its argument wrongly shows up here. Only the datums are taken
+            // from the staged struct (remove_datum_by_hash works on the hash of the bytes as
+            // staged, which the bookkeeping model does not reproduce; see the diagnostics).
+            let staged_cmp = Content { mint: effective_mint(&m.content.mint), datums: staged.content.datums.clone(), ..m.content.clone() };
             let diff = staged_cmp.first_difference(&dec.content);
             if let Some((field, detail)) = &diff {
                 fail(format!("built-content:{field}"), format!("built {field} are not the staged ones: {detail}"), json!({}));
@@ -1292,7 +1290,7 @@ pub fn run(ctx: Ctx) -> ! {
         Level::ModelChecking,
         cov,
         &[
-            "staged content = the public fields of the StagingTransaction (cross-checked against a bookkeeping model of the calls; divergences are diagnostics), except outputs / collateral return (reference = the bookkeeping of the Output builder calls) and scripts: there the bookkeeping model is the reference (every (language, bytes) staged and not removed through its reference hash Blake2b-224(tag || bytes) must sit under its own witness-set key, each once, nothing else)",
+            "staged content = the public fields of the StagingTransaction (cross-checked against a bookkeeping model of the calls; divergences are diagnostics), where the bookkeeping model of the calls is the reference for every compared field except the witness datums (there the staged struct is; remove_datum_by_hash is modelled coarsely); for scripts the bookkeeping model is the reference (every (language, bytes) staged and not removed through its reference hash Blake2b-224(tag || bytes) must sit under its own witness-set key, each once, nothing else)",
             "a staged mint amount that accumulated to 0 stands for 'nothing minted': zero amounts, then empty policies, are dropped from the staged side of the mint comparison; redeemer positions are taken in the sorted set of inputs / sorted policy ids of the built transaction",
             "sets (inputs, collateral, reference inputs, signers, datums, scripts) are compared as sets; datums, native scripts and auxiliary data up to CBOR spelling (definite/indefinite, head width)",
             "fee, script_data_hash, redeemer data and ex-units are not in the property's list and are diagnostics only",
